@@ -91,7 +91,7 @@ Definition judge (ctx : nat * table) (c : case) : bool * bool * Z :=
   match c with
   | Single _ _ q o | Same q o =>
       let ob := obs_of ncols t q o in
-      (model_agrees1 ncols t q ob, spec_ok1 ncols t q ob, known_class_case ncols q t)
+      (model_agrees1 ncols t q ob, spec_ok1 ncols t q ob, known_class_q ncols q)
   | Group _ _ gq o | GSame gq o =>
       let ob := gobs_of o in
       (model_agrees_g ncols t gq ob, spec_ok_g ncols t gq ob, 0)
@@ -99,7 +99,7 @@ Definition judge (ctx : nat * table) (c : case) : bool * bool * Z :=
 
 Definition model_agrees_in (ctx : nat * table) (c : case) : bool := fst (fst (judge ctx c)).
 Definition spec_ok_in (ctx : nat * table) (c : case) : bool := snd (fst (judge ctx c)).
-(* the recorded finding class of the case (Model/SortImpl.v known_class_case); 0 = none *)
+(* the recorded finding class of the case (Model/SortImpl.v known_class_q); 0 = none *)
 Definition known_class_in (ctx : nat * table) (c : case) : Z := snd (judge ctx c).
 
 (* a case standing alone (Same without a table: an empty table of no columns) *)
